@@ -50,6 +50,10 @@ def dedup_key_rule(R, prefix):
     return ck
 
 
+def forwards_full(call):
+    return any(isinstance(a, ast.Starred) and q.src(a.value) == "args" for a in call.args) and any(k.arg is None and q.src(k.value) == "kwargs" for k in call.keywords)
+
+
 def run(R):
     R.extra["explanation"] = EXPLANATION
     ro = Roles(R)
@@ -154,7 +158,25 @@ def run(R):
         R.check(p is None and hit_rets, "C12.HIT", asy.qualname + ":shares", R.site(asy, t.ast),
                 "a stored task that is not running is returned to the caller (shared)",
                 "a stored, not running task is not returned on every path: the body runs again for the same key", cfg.fmt_path(p) if p else None)
-        # those returns are not reachable over the miss edge without the store (i.e. they return a real task)
+        # running -> a fresh task built from the caller's arguments is returned (never None, never the running one)
+        starts_r = [e.dst for e in cfg.out_edges(t.id, N) if e.label == running(t, True)]
+        fresh_rets = [n for n in rets if isinstance(n.ast.value, ast.Call) and q.src(n.ast.value.func).endswith("fn.asynq") and forwards_full(n.ast.value)]
+        fresh_vars = set(tt.id for n in cfg.nodes if n.kind == "stmt" and isinstance(n.ast, ast.Assign) and isinstance(n.ast.value, ast.Call)
+                         and q.src(n.ast.value.func).endswith("fn.asynq") and forwards_full(n.ast.value) for tt in n.ast.targets if isinstance(tt, ast.Name))
+        # ... directly, or through a local that was (re)bound to the fresh task and is what the next return hands out
+        fresh_asg = []
+        for n in cfg.nodes:
+            if n.kind == "stmt" and isinstance(n.ast, ast.Assign) and len(n.ast.targets) == 1 and isinstance(n.ast.targets[0], ast.Name) \
+                    and isinstance(n.ast.value, ast.Call) and q.src(n.ast.value.func).endswith("fn.asynq") and forwards_full(n.ast.value):
+                v = n.ast.targets[0].id
+                other = [r for r in rets if not (isinstance(r.ast.value, ast.Name) and r.ast.value.id == v)]
+                rebind = [x for x in cfg.nodes if x is not n and x.kind == "stmt" and isinstance(x.ast, ast.Assign) and any(q.src(tt) == v for tt in x.ast.targets)]
+                if cfg.find_path([e.dst for e in cfg.out_edges(n.id, N)], other + rebind, N) is None:
+                    fresh_asg.append(n)
+        p = cfg.find_path(starts_r, [cfg.exit], N, cut_nodes=fresh_rets + fresh_asg)
+        R.check(p is None, "C12.HIT", asy.qualname + ":running-fresh", R.site(asy, t.ast),
+                "for a stored task that is running, a fresh task for the same arguments is returned",
+                "when the stored task is running the caller does not get a fresh task for its arguments on every path", cfg.fmt_path(p) if p else None)
     # asyncio mode bypass keeps arguments
     # DIRTY
     di = dd.methods.get("dirty")
@@ -176,6 +198,21 @@ def run(R):
     kvals = common.assigned_values(de.node, "_keygetter")
     R.check(any(k == "expr" and q.src(v) == "keygetter" for k, v in kvals), "C12.WIRING", de.qualname + ":custom", R.site(de),
             "a custom keygetter is used when given", "a custom keygetter is ignored")
+    decfg = cfg_of(de)
+    dflt = [n for n in decfg.nodes if n.kind == "stmt" and isinstance(n.ast, ast.Assign) and any(q.src(t) == "_keygetter" for t in n.ast.targets)
+            and q.src(n.ast.value) != "keygetter"]
+
+    def none_key(nd):
+        if nd.kind != "test":
+            return None
+        k, s, pos = q.atom_test(nd.ast)
+        if k == "isnone" and s in ("_keygetter", "keygetter"):
+            return "T" if pos else "F"
+        return None
+    if dflt:
+        p = kit.path_avoiding_guard(decfg, dflt, none_key, N)
+        R.check(p is None, "C12.WIRING", de.qualname + ":custom-kept", R.site(de), "the default key function replaces the key getter only when none was given",
+                "a custom keygetter can be overwritten by the default key function", decfg.fmt_path(p) if p else None)
     # the in-flight table never forgets an entry on its own
     tv = dd.class_assigns.get("tasks")
     okt = tv is not None and ((isinstance(tv.value, ast.Dict) and not tv.value.keys) or (isinstance(tv.value, ast.Call) and q.call_name(tv.value) in ("dict", "collections.OrderedDict", "OrderedDict") and not tv.value.args))
